@@ -45,6 +45,14 @@ def rand_faces(r, kinds_pair=("periodic",), kinds_single=("pec", "pmc", "none"),
     return faces
 
 
+def fit_shape(shape, faces, min_inner=2):
+    """Grow `shape` in place so that every axis keeps >= min_inner cells outside its PML slabs."""
+    for a, ax in enumerate("xyz"):
+        t = sum(faces[f"{d}_{ax}"].get("thickness", 0) for d in ("min", "max") if faces[f"{d}_{ax}"]["kind"] == "pml")
+        shape[a] = max(shape[a], t + min_inner)
+    return shape
+
+
 def rand_grid(r, shape, p_nonuniform=0.5, ratio=2.0):
     if r.uniform() < p_nonuniform:
         edges = []
@@ -124,9 +132,11 @@ def rand_switch(r, T, p_default=0.3, need_active=False):
     elif kind == "end_only":
         s = {"end_time_dt": b}
     elif kind == "duration":
-        s = {"start_time_dt": a - 1.0, "on_for_time_dt": float(int(r.integers(0, T)) + 0.5)}
+        # durations are quarter-odd so that start + duration (half-integer + x.25) is never a whole step: a half-integer
+        # duration would put the derived end exactly on a step, where `t*dt <= start + duration` is decided by float rounding
+        s = {"start_time_dt": a - 1.0, "on_for_time_dt": float(int(r.integers(0, T)) + 0.25)}
     elif kind == "duration_end":
-        s = {"end_time_dt": b, "on_for_time_dt": float(int(r.integers(0, T)) + 0.5)}
+        s = {"end_time_dt": b, "on_for_time_dt": float(int(r.integers(0, T)) + 0.25)}
     elif kind == "interval":
         s = {"interval": int(r.integers(2, 5))}
         if r.uniform() < 0.5:
